@@ -21,6 +21,10 @@ REGISTRY = {
     "C09": ("nixmc.props.e2props", {}),
     "C19": ("nixmc.props.e2props", {}),
     "C14": ("nixmc.props.c14", {}),
+    "C12": ("nixmc.props.c12", {}),
+    "C13": ("nixmc.props.c13", {}),
+    "C10": ("nixmc.props.c10", {}),
+    "C11": ("nixmc.props.c10", {}),
 }
 
 
